@@ -945,8 +945,132 @@ def language_level(ctx, libdir):
     if st != "ok" or out != exp:
         impl_hits.append(("byte-string literal with all 256 values is not printed unchanged (status %s); %s" % (st, where(out, exp)),
                           "# run: %s '<prog>'\n%s\n%s\n" % (hawk, prog, err[-1500:]), cli_sig(err)))
-    return len(jobs) + 2, impl_hits, corr_hits
+    ncache, chits = cache_family(ctx, hawk, wdir)
+    impl_hits += chits[:3]
+    ok_c, got_c = cache_constants_ok()
+    if not ok_c:
+        corr_hits.append(("the string-cache constants of lib/hawk-prv.h are no longer the ones the many-strings family is laid out around (16 classes x 16 x 128): %r" % (got_c,), ""))
+    return len(jobs) + 2 + ncache, impl_hits, corr_hits
 
+
+
+# ----------------------------------------------------------------------------
+# many strings at once: the block caches of val.c (HAWK_MBS_CACHE_* / HAWK_STR_CACHE_*: 16 size classes of 16 bytes/characters,
+# class = align(len + 1, 16) / 16, 128 parked blocks per class) – content identity after cache churn, CLI runs only
+# ----------------------------------------------------------------------------
+CACHE_UNIT, CACHE_CLASSES, CACHE_SLOTS = 16, 16, 128
+
+
+def cache_constants_ok():
+    """the family is laid out around the constants of hawk-prv.h; say so when they move"""
+    try:
+        src = open(os.path.join(C.REPO, "lib", "hawk-prv.h")).read()
+        import re
+        got = {m.group(1): int(m.group(2)) for m in re.finditer(r"#define\s+(HAWK_(?:STR|MBS)_CACHE_\w+)\s+\((\d+)\)", src)}
+        return all(got.get("HAWK_%s_CACHE_%s" % (k, n)) == v for k in ("STR", "MBS")
+                   for n, v in (("NUM_BLOCKS", CACHE_CLASSES), ("BLOCK_UNIT", CACHE_UNIT), ("BLOCK_SIZE", CACHE_SLOTS))), got
+    except OSError:
+        return False, {}
+
+
+def cache_case(kind, cls, N, L1, L2, K, M, release):
+    """hawk program + expected output: K values of the next class parked first, N values of class `cls` alive at once (a third of
+    them kept alive elsewhere), released together, then fresh values of both classes made by concatenation, substr and
+    sprintf("%s"), all alive at once, printed and compared byte for byte"""
+    if kind == "mbs":
+        base = [b for b in range(0x21, 0x100) if b not in (0x22, 0x5C)]
+        P = bytes(base + base[:140])
+        lit = '@b"' + "".join("\\x%02x" % b for b in P) + '"'
+        B = "@b"
+        enc = lambda x: x
+        num = lambda fmt, i: (fmt % i).encode()
+    else:
+        chars = [chr(c) for c in list(range(0x41, 0x5B)) + list(range(0x61, 0x7B)) + [0xE9, 0x20AC, 0xAC00, 0x3B1, 0x416, 0xFF21, 0xD7FF, 0x7FF, 0x800, 0xFFFD]]
+        P = "".join(chars[(i * 7) % len(chars)] for i in range(380))
+        lit = '"' + P + '"'
+        B = ""
+        enc = lambda x: x.encode("utf-8")
+        num = lambda fmt, i: fmt % i
+    sub = lambda s_, l: P[s_ - 1:s_ - 1 + l]
+    rel = "delete a;" if release == "delete" else "for (i = 0; i < N; i++) a[i] = 0;"
+    prog = """BEGIN {
+  N = %d; M = %d; K = %d; L1 = %d; L2 = %d;
+  P = %s;
+  for (j = 0; j < K; j++) pre[j] = substr(P, 1 + j, L2);
+  delete pre;
+  for (i = 0; i < N; i++) a[i] = substr(P, 1 + (i %% 37), L1 - 3) sprintf(%s"%%03d", i);
+  for (i = 0; i < N; i += 3) keep[i] = a[i];
+  %s
+  for (i = 0; i < M; i++) {
+    b1[i] = substr(P, 2 + (i %% 29), L1 - 2) sprintf(%s"%%02d", i);
+    b2[i] = substr(P, 3 + (i %% 31), L2);
+    b3[i] = sprintf(%s"%%s%%02d", substr(P, 5 + i, L2 - 2), i);
+    b4[i] = substr(P, 7 + i, L1);
+  }
+  for (i = 0; i < M; i++) {
+    printf(%s"%%s\\n", b1[i]); printf(%s"%%s\\n", b2[i]); printf(%s"%%s\\n", b3[i]); printf(%s"%%s\\n", b4[i]);
+    print length(b1[i]), length(b2[i]), length(b3[i]), length(b4[i]);
+  }
+  for (i = 0; i < N; i += 3) printf(%s"%%s\\n", keep[i]);
+}
+""" % (N, M, K, L1, L2, lit, B, rel, B, B, B, B, B, B, B)
+    exp = b""
+    for i in range(M):
+        b1 = sub(2 + (i % 29), L1 - 2) + num("%02d", i)
+        b2 = sub(3 + (i % 31), L2)
+        b3 = sub(5 + i, L2 - 2) + num("%02d", i)
+        b4 = sub(7 + i, L1)
+        for v in (b1, b2, b3, b4):
+            exp += enc(v) + b"\n"
+        exp += ("%d %d %d %d\n" % (len(b1), len(b2), len(b3), len(b4))).encode()
+    for i in range(0, N, 3):
+        exp += enc(sub(1 + (i % 37), L1 - 3) + num("%03d", i)) + b"\n"
+    return prog, exp
+
+
+def cache_family(ctx, hawk, wdir):
+    quick = ctx.tier == "quick"
+    rng = ctx.rng
+    cases = []
+    Ns = [127, 128, 129, 130, 300] if quick else [100, 127, 128, 129, 130, 140, 300]
+    for kind in ("mbs", "str"):
+        for cls in (1, 2, 3, 14, 15):
+            lo, hi = max(5, CACHE_UNIT * (cls - 1)), CACHE_UNIT * cls - 1          # lengths of class cls
+            lo2, hi2 = CACHE_UNIT * cls, CACHE_UNIT * cls + CACHE_UNIT - 1          # lengths of the next class
+            for n_i, N in enumerate(Ns):
+                variants = [(lo, lo2), (hi, hi2), (hi, lo2), (lo, hi2)]
+                for v_i, (L1, L2) in enumerate(variants if not quick else [variants[(n_i + cls) % 4]]):
+                    for K in ([1] if quick else [0, 1, 3]):
+                        release = "delete" if (quick and (n_i + cls) % 3) or (not quick and (v_i + K) % 2 == 0) else "reassign"
+                        cases.append((kind, cls, N, L1, L2, K, 6, release))
+    jobs = []
+    for c in cases:
+        prog, exp = cache_case(*c)
+        pf = os.path.join(wdir, "cache_%s_c%d_n%d_%d_%d_k%d_%s.hawk" % (c[0], c[1], c[2], c[3], c[4], c[5], c[7]))
+        open(pf, "w").write(prog)
+        jobs.append((c, pf, prog, exp))
+
+    def run_job(j):
+        return hawk_run(hawk, ["-f", j[1]], size=len(j[2]))
+    with ThreadPoolExecutor(max_workers=8) as ex:
+        results = list(ex.map(run_job, jobs))
+    hits = []
+    for (c, pf, prog, exp), (rc, out, err) in zip(jobs, results):
+        st = C.classify_rc(rc, err)
+        if rc in (-9, 137):
+            st = "HANG"
+        if st == "ok" and out == exp:
+            continue
+        k = next((i for i in range(min(len(out), len(exp))) if out[i] != exp[i]), min(len(out), len(exp)))
+        keepf = os.path.join(C.VERIF, "replay", "C15", "cache-%s-seed%d-%s" % (ctx.tier, ctx.seed, os.path.basename(pf)))
+        os.makedirs(os.path.dirname(keepf), exist_ok=True)
+        open(keepf, "w").write(prog)
+        hits.append(("%s strings do not keep their content after cache churn: %d values of size class %d (length %d) alive at once and released by %s, %d of the next class "
+                     "parked before, then fresh values of lengths %d and %d by concatenation / substr / sprintf: status %s; first difference at output byte %d: got %r expected %r" % (
+                         "byte" if c[0] == "mbs" else "character", c[2], c[1], c[3], c[7], c[5], c[3], c[4], st, k, out[max(0, k - 8):k + 20], exp[max(0, k - 8):k + 20]),
+                     "# replay: ./check C15 --replay %s\n# run: %s -f %s\n# expected output: the values computed by the same expressions in python (cache_case in vlib/props/c15.py)\n# %s\n" % (
+                         keepf, hawk, keepf, err[-2500:].replace("\n", "\n# ")), None))
+    return len(jobs), hits
 
 # ----------------------------------------------------------------------------
 THEOREMS_HINT = "theorems of HawkModel/Props/C15.lean speak about HawkModel/Utf8.lean and HawkModel/Tio.lean (decode_encode, encode_decode, decode_in_bounds, tio_read_chunk_independent, tio_write_roundtrip, …)"
@@ -1096,7 +1220,7 @@ def run(ctx):
                     "random streams each under two schedules (chunking x capacity x read size), with and without IGNOREECERR, well- and ill-formed) + tio write runs; decided first by a "
                     "model-independent oracle (python's UTF-8 codec as reference for well-formed BMP text, byte identity, equal characters under two schedules, bounds, determinism, sanitizer/hang), "
                     "then line by line against the Lean model (every call's result and the staging cursor/length/status/unread bytes); language level: identity / re-join / length programs over every "
-                    "BMP scalar at several alignments, edge placements, ill-formed files, piped chunks vs file, byte-string programs over all 256 byte values; write side against a scripted handler (accept k / accept nothing / fail at call j): every script of length <= 3 over a 5-reply "
+                    "BMP scalar at several alignments, edge placements, ill-formed files, piped chunks vs file, byte-string programs over all 256 byte values, the many-strings family around the val.c cache size classes (byte and character strings); write side against a scripted handler (accept k / accept nothing / fail at call j): every script of length <= 3 over a 5-reply "
                     "alphabet x call lists + random (`tiox`: return values, outbuf_len, staged bytes, handler calls, accepted slices) and print on the std console with write(2) interposed in-process (`prt`); "
                     "oracle there: accepted + staged = whole text of calls that reported success and a prefix for calls that reported failure, nothing twice, a final flush completes. "
                     "distinct_nontrivial = distinct tio reads whose "
@@ -1106,6 +1230,7 @@ def run(ctx):
                                             differing_ops=ndiff, cli_runs=ncli, table_rows=len(info["rows"])),
                     trusted=["utf8.c/utl.c/tio.c loops modelled by hand in HawkModel/Utf8.lean and HawkModel/Tio.lean; only utf8_table[] is machine-translated (extract/utf8_table.py checks the loop constants textually)",
                              "byte-string value paths (val.c, run.c concat, fnc.c substr, fmt %s, rio byte reads) are identity on lists in the model and tied only by the language-level runs",
+                             "the value caches of val.c (str/mbs block caches, 16 size classes x 128 parked blocks) are not modelled: the many-strings family (N in 100..300 values per size class alive at once, released together, fresh values of the same and the next class by concatenation/substr/sprintf, compared with python under ASan) ties them by CLI runs only",
                              "output handler modelled as a reply script (accept 1..offered bytes / 0 / fail); a handler claiming more than it was offered is not modelled; print's segmentation into value + ORS writes (rio.c) is assumed by the `prt` stage and checked only by correspondence"],
                     assumptions=["hawk_uch_t is the unsigned 16-bit type of the checked build (-fshort-wchar); default cmgr utf8",
                                  "staging capacities >= HAWK_TIO_MININBUFCAPA/MINOUTBUFCAPA as hawk_tio_attachin/out enforce",
@@ -1114,6 +1239,19 @@ def run(ctx):
 
 def replay(ctx, path):
     libdir = C.build_libhawk(ctx)
+    if path.endswith(".hawk"):
+        # a kept many-strings program: cache-<tier>-seed<n>-cache_<kind>_c<cls>_n<N>_<L1>_<L2>_k<K>_<release>.hawk
+        import re
+        m = re.search(r"cache_(mbs|str)_c(\d+)_n(\d+)_(\d+)_(\d+)_k(\d+)_(delete|reassign)\.hawk$", path)
+        if not m:
+            print("not a many-strings program kept by this check:", path)
+            return 2
+        prog, exp = cache_case(m.group(1), int(m.group(2)), int(m.group(3)), int(m.group(4)), int(m.group(5)), int(m.group(6)), 6, m.group(7))
+        rc, out, err = hawk_run(os.path.join(libdir, "hawk"), ["-f", path], size=len(prog))
+        st = C.classify_rc(rc, err)
+        print("status:", st, "| output equals the values computed in python:", out == exp)
+        print(err[-2500:])
+        return 0 if (st == "ok" and out == exp) else 1
     if path.endswith(".bin"):
         data = open(path, "rb").read()
         f = kv(drv(ctx, ["ident 2048 i 2048 %s" % fmt_chunks([data])])[0])
